@@ -356,11 +356,14 @@ struct World<T: MomT> {
     ghost: Vec<Vec<i64>>,
     /// slot built without any merge (adds, clones of add-only slots, checkpoints)
     addonly: Vec<bool>,
+    /// which of Clone::clone / Clone::clone_from a Clone step uses (a history with a Clone step is
+    /// replayed with both)
+    parity: usize,
 }
 
 impl<T: MomT> World<T> {
     fn new(k: usize) -> Self {
-        World { slots: (0..k).map(|i| if i % 2 == 0 { T::new() } else { T::default_() }).collect(), ghost: vec![vec![]; k], addonly: vec![true; k] }
+        World { slots: (0..k).map(|i| if i % 2 == 0 { T::new() } else { T::default_() }).collect(), ghost: vec![vec![]; k], addonly: vec![true; k], parity: 0 }
     }
 }
 
@@ -633,7 +636,7 @@ fn apply<T: MomT>(w: &mut World<T>, op: &Op, e: &Embedding, roundtrip: bool) {
         Op::Clone(d, s) => {
             // Clone::clone / Clone::clone_from alternately: the same step of the specification
             let src = w.slots[s].clone();
-            if (w.ghost[d].len() + w.ghost[s].len()) % 2 == 1 {
+            if (w.ghost[d].len() + w.ghost[s].len() + w.parity) % 2 == 1 {
                 w.slots[d].clone_from(&src);
             } else {
                 w.slots[d] = src;
@@ -692,10 +695,11 @@ pub fn check_final<T: MomT>(obj: &T, spec: &SlotSpec, cx: &Ctx, e: &Embedding, a
 }
 
 /// Replay one emitted state on one type under one embedding.
-fn replay_one<T: MomT>(h: &Value, ops: &[Op], specs: &[SlotSpec], cxs: &[Ctx], e: &Embedding, want: &Want, rep: &mut Report) {
+fn replay_one<T: MomT>(h: &Value, ops: &[Op], specs: &[SlotSpec], cxs: &[Ctx], e: &Embedding, want: &Want, rep: &mut Report, parity: usize) {
     let k = specs.len();
     rep.replays += 1;
     let mut w = World::<T>::new(k);
+    w.parity = parity;
     let has_ckpt = ops.iter().any(|o| matches!(o, Op::Ckpt(_)));
     for (step, op) in ops.iter().enumerate() {
         // ---- C11: merge laws, implementation against implementation, bit for bit
@@ -765,6 +769,7 @@ fn replay_one<T: MomT>(h: &Value, ops: &[Op], specs: &[SlotSpec], cxs: &[Ctx], e
     // ---- C18: the same history with a serde round trip at every checkpoint
     if want.is("C18") && has_ckpt {
         let mut w1 = World::<T>::new(k);
+        w1.parity = parity;
         for (step, op) in ops.iter().enumerate() {
             if let Op::Ckpt(s) = op {
                 let before = obs_bits(&w1.slots[*s]);
@@ -815,10 +820,13 @@ fn run_type<T: MomT>(h: &Value, ops: &[Op], specs: &[SlotSpec], cxs: &[Ctx], wan
     if !want.types.iter().any(|t| t == T::NAME) {
         return;
     }
+    let parities: &[usize] = if ops.iter().any(|o| matches!(o, Op::Clone(_, _))) { &[0, 1] } else { &[0] };
     for e in &want.embeddings {
-        let r = std::panic::catch_unwind(std::panic::AssertUnwindSafe(|| replay_one::<T>(h, ops, specs, cxs, e, want, &mut *rep)));
-        if r.is_err() {
-            viol::<T>(rep, &want.prop, e, h, 0, "panic", "the code under test panicked outside an accessor (new / add / merge / clone / serde)".into(), json!({}));
+        for &parity in parities {
+            let r = std::panic::catch_unwind(std::panic::AssertUnwindSafe(|| replay_one::<T>(h, ops, specs, cxs, e, want, &mut *rep, parity)));
+            if r.is_err() {
+                viol::<T>(rep, &want.prop, e, h, 0, "panic", "the code under test panicked outside an accessor (new / add / merge / clone / serde)".into(), json!({}));
+            }
         }
     }
 }
